@@ -24,6 +24,8 @@ enum Item {
     Select(u32),
     Define(u32, u8, u8, u8),
     Raster(u32, u32, u32, u32),
+    /// raster attribute with any number of parameters (the short forms a;b / a;b;h and over-long ones)
+    RasterN(Vec<u32>),
 }
 
 fn render_items(items: &[Item]) -> Vec<u8> {
@@ -40,6 +42,10 @@ fn render_items(items: &[Item]) -> Vec<u8> {
             Item::Select(c) => out.extend_from_slice(format!("#{c}").as_bytes()),
             Item::Define(c, r, g, b) => out.extend_from_slice(format!("#{c};2;{r};{g};{b}").as_bytes()),
             Item::Raster(a, b, w, h) => out.extend_from_slice(format!("\"{a};{b};{w};{h}").as_bytes()),
+            Item::RasterN(v) => {
+                out.push(b'"');
+                out.extend_from_slice(v.iter().map(|n| n.to_string()).collect::<Vec<_>>().join(";").as_bytes());
+            }
         }
     }
     out
@@ -62,8 +68,17 @@ fn payloads() -> BoxedStrategy<Payload> {
     let widen = prop_oneof![2 => Just(0usize), 1 => 1usize..=30];
     // where the raster attribute goes: 0 = in front (the modelled case), 1 = at a random position, 2 = as the very last token
     let raster_pos = prop_oneof![4 => Just(0u8), 1 => Just(1u8), 1 => Just(2u8)];
-    (raster, proptest::collection::vec(item, 0..=14), widen, raster_pos, any::<u16>())
-        .prop_map(|(r, mut items, widen, rpos, ridx)| {
+    // further raster attributes anywhere in the payload, with 0..=6 parameters (hosts re-declare the size; the short forms change one dimension only)
+    let extra_rasters = prop_oneof![
+        5 => Just(Vec::new()),
+        3 => proptest::collection::vec((proptest::collection::vec(prop_oneof![2 => 0u32..=3, 3 => 0u32..=40], 0..=6), any::<u16>()), 1..=3),
+    ];
+    (raster, proptest::collection::vec(item, 0..=14), widen, raster_pos, any::<u16>(), extra_rasters)
+        .prop_map(|(r, mut items, widen, rpos, ridx, extra)| {
+            for (ps, at) in extra {
+                let at = icyv::util::pick(at, items.len() + 1);
+                items.insert(at, Item::RasterN(ps));
+            }
             let mut all = Vec::new();
             let mut late = None;
             if let Some(r) = r {
@@ -590,7 +605,7 @@ fn poll_not_prefix(_got: &[(i32, i32, i32, i32)], _want: &[(i32, i32, i32, i32)]
 fn main() {
     let mut eng = Engine::new("C14");
     eng.rule(
-        "payloads: sixel grammar (data ?..~, !n repeats n<=500, $, -, #c, #c;2;r;g;b, raster \"a;b;w;h (in front, at a random position or as the last token) with sizes smaller/equal/larger than the data; a third force a later band wider than \
+        "payloads: sixel grammar (data ?..~, !n repeats n<=500, $, -, #c, #c;2;r;g;b, raster \"a;b;w;h (in front, at a random position or as the last token) with sizes smaller/equal/larger than the data, in 3 of 8 payloads 1..=3 further raster attributes with 0..=6 parameters at random positions (rectangle law only: the reference models a single leading raster); a third force a later band wider than \
          the first) -> Sixel::parse_from: picture_data.len()==4*w*h, declared raster height == h and width <= w, pixel-exact agreement with a reference rasteriser (painted <=> opaque, RGB of defined registers). \
          Non-trivial payload: painted rows of unequal length or raster != data extent. schedules: k<=4 images (grid positions so that images cover each other) held at the decode gate (hook), ALL k! completion \
          orders x ALL 2^k poll placements; after every poll layers[0].sixels must equal a FIFO-prefix model with the containment rule; polls must return within 2 s while decodes are held. \
